@@ -478,7 +478,8 @@ func TestC15Expander(t *testing.T) {
 			vlib.Class(sub, "hash="+md.name)
 		} else {
 			x := rapid.SampledFrom(xofs).Draw(t, "xof")
-			k := rapid.SampledFrom([]int{128, 256, 128, 256, 100, 4, 192}).Draw(t, "k")
+			k := drawSecLevel(t)
+			vlib.Class("expander/xof", fmt.Sprintf("k mod 4 = %d", k%4))
 			sub, key = "expander/xof", "C15/expander/xof/"+x.name
 			exp = expander.NewExpanderXOF(x.id, uint(k), dst)
 			unit = 168
@@ -644,4 +645,104 @@ func TestC15OneShot(t *testing.T) {
 			vlib.NonTrivial(sub, "multi-block", msg, ctx, []byte{D, byte(ol), byte(ol >> 8)})
 		}
 	})
+}
+
+// drawSecLevel draws the security level k of expand_message_xof over structured values: the
+// oversize-DST reduction reads ceil(2k/8) bytes, so every residue of k matters.
+func drawSecLevel(t *rapid.T) int {
+	switch rapid.IntRange(0, 3).Draw(t, "kkind") {
+	case 0:
+		return rapid.SampledFrom([]int{128, 256, 192, 100, 4}).Draw(t, "k")
+	case 1:
+		m := rapid.IntRange(1, 33).Draw(t, "km")
+		return 8*m + rapid.SampledFrom([]int{-3, -1, 1, 3}).Draw(t, "kd")
+	default:
+		return rapid.IntRange(1, 264).Draw(t, "k")
+	}
+}
+
+// TestC15ExpanderSweep: deterministic sweeps over the integer parameters of the expanders.
+//   - xof: every security level k in 1..264 x every XOF id x DST length in {20, 255, 256, 300};
+//   - xof and xmd: every DST length 250..260 and every output length 0..3*unit+2 plus the largest two.
+func TestC15ExpanderSweep(t *testing.T) {
+	defer vlib.Done()
+	sub := "expander/sweep"
+	msg := make([]byte, 37)
+	vlib.ExpandInto(msg, uint64(vlib.Seed)*131+7)
+	dstBuf := make([]byte, 400)
+	vlib.ExpandInto(dstBuf, uint64(vlib.Seed)*131+8)
+	idx := 0
+	check := func(key, what string, got []byte, want []byte, err error) bool {
+		vlib.Eval(sub)
+		if err != nil {
+			t.Fatalf("SELFTEST-FAIL reference aborted inside the valid domain: %v", err)
+		}
+		if !bytes.Equal(got, want) {
+			return vlib.ReportDirect(t, key, fmt.Sprintf("%s: got %s want %s", what, vlib.Hex(got), vlib.Hex(want)), map[string]interface{}{"case": what})
+		}
+		return true
+	}
+	for _, x := range xofs {
+		for k := 1; k <= 264; k++ {
+			for _, dl := range []int{20, 255, 256, 300} {
+				idx++
+				if idx%vlib.NShards != vlib.Shard {
+					continue
+				}
+				dst := dstBuf[:dl]
+				want, err := h2c.XOF(x.ref, k, msg, dst, 40)
+				got := expander.NewExpanderXOF(x.id, uint(k), dst).Expand(msg, 40)
+				if !check("C15/expander/xof/"+x.name+"/value-k-sweep", fmt.Sprintf("%s k=%d |dst|=%d n=40", x.name, k, dl), got, want, err) {
+					return
+				}
+				if dl > 255 {
+					vlib.NonTrivial(sub, fmt.Sprintf("xof:oversize-dst,k mod 4=%d", k%4), []byte(x.name), []byte{byte(k), byte(k >> 8), byte(dl), byte(dl >> 8), byte(vlib.Seed)})
+				}
+			}
+		}
+		for dl := 250; dl <= 260; dl++ {
+			for _, n := range append(seq(0, 3*168+2), 65534, 65535) {
+				idx++
+				if idx%vlib.NShards != vlib.Shard || (!vlib.Thorough() && n > 8 && n < 65534 && (n+dl)%7 != vlib.Seed%7) {
+					continue
+				}
+				dst := dstBuf[:dl]
+				want, err := h2c.XOF(x.ref, 128, msg, dst, n)
+				got := expander.NewExpanderXOF(x.id, 128, dst).Expand(msg, uint(n))
+				if !check("C15/expander/xof/"+x.name+"/value-length-sweep", fmt.Sprintf("%s k=128 |dst|=%d n=%d", x.name, dl, n), got, want, err) {
+					return
+				}
+				vlib.NonTrivial(sub, "xof:dst250..260 x n", []byte(x.name), []byte{byte(n), byte(n >> 8), byte(dl), byte(dl >> 8), byte(vlib.Seed)})
+			}
+		}
+	}
+	for _, md := range mds {
+		unit := md.h.Size()
+		for dl := 250; dl <= 260; dl++ {
+			for _, n := range append(seq(0, 3*unit+2), 255*unit-1, 255*unit) {
+				idx++
+				if idx%vlib.NShards != vlib.Shard || (!vlib.Thorough() && n > 8 && n < 255*unit-1 && (n+dl)%3 != vlib.Seed%3) {
+					continue
+				}
+				dst := dstBuf[:dl]
+				want, err := h2c.XMD(md.h.New, msg, dst, n)
+				got := expander.NewExpanderMD(md.h, dst).Expand(msg, uint(n))
+				if !check("C15/expander/xmd/"+md.name+"/value-length-sweep", fmt.Sprintf("%s |dst|=%d n=%d", md.name, dl, n), got, want, err) {
+					return
+				}
+				vlib.NonTrivial(sub, "xmd:dst250..260 x n", []byte(md.name), []byte{byte(n), byte(n >> 8), byte(dl), byte(dl >> 8), byte(vlib.Seed)})
+			}
+		}
+	}
+	if vlib.Shard == 0 {
+		vlib.Exhaustive("C15 expander/sweep: expand_message_xof for every k in 1..264 x 5 XOFs x |DST| in {20,255,256,300}", int64(5*264*4), "all shards together; one message per seed")
+	}
+}
+
+func seq(a, b int) []int {
+	var o []int
+	for i := a; i <= b; i++ {
+		o = append(o, i)
+	}
+	return o
 }
